@@ -640,9 +640,13 @@ impl Transaction {
 		let mut hard_delete_keys: std::collections::HashSet<&[u8]> =
 			std::collections::HashSet::new();
 
-		for (key, entry_list) in
-			self.write_set.range(start.as_slice().to_vec()..end.as_slice().to_vec())
-		{
+		// An inverted range is empty (`BTreeMap::range` would panic on it).
+		let ws_range = if start.as_slice() <= end.as_slice() {
+			start.as_slice().to_vec()..end.as_slice().to_vec()
+		} else {
+			start.as_slice().to_vec()..start.as_slice().to_vec()
+		};
+		for (key, entry_list) in self.write_set.range(ws_range) {
 			if let Some(entry) = entry_list.last() {
 				// Hard deletes wipe all history - track them separately
 				if entry.is_hard_delete() {
@@ -1008,9 +1012,12 @@ impl<'a> TransactionRangeIterator<'a> {
 		// Collect write-set entries for the range
 		// We collect references to avoid cloning, and filter tombstones during iteration
 		let mut write_set_entries: Vec<(&'a Key, &'a Entry)> = Vec::new();
-		for (key, entry_list) in tx.write_set.range(start_key..end_key) {
-			if let Some(entry) = entry_list.last() {
-				write_set_entries.push((key, entry));
+		// An inverted range is empty (`BTreeMap::range` would panic on it).
+		if start_key <= end_key {
+			for (key, entry_list) in tx.write_set.range(start_key..end_key) {
+				if let Some(entry) = entry_list.last() {
+					write_set_entries.push((key, entry));
+				}
 			}
 		}
 
